@@ -34,6 +34,7 @@ import (
 	stakingtypes "github.com/cosmos/cosmos-sdk/x/staking/types"
 	"github.com/cosmos/ibc-go/v7/testing/mock"
 	"github.com/ethereum/go-ethereum/common"
+	"github.com/ethereum/go-ethereum/common/hexutil"
 	"github.com/ethereum/go-ethereum/crypto"
 
 	"github.com/haqq-network/haqq/app"
@@ -111,6 +112,19 @@ func (w *nodeWorld) freshAddr() common.Address {
 func nodeNewApp(db dbm.DB) *app.Haqq {
 	return app.NewHaqq(log.NewNopLogger(), db, nil, true, map[int64]bool{}, app.DefaultNodeHome, 0,
 		encoding.MakeConfig(app.ModuleBasics), simtestutil.NewAppOptionsWithFlagHome(app.DefaultNodeHome),
+		baseapp.SetChainID(nodeChainID))
+}
+
+// nodeOpts: app options of a node whose operator has set the node-local knobs of app.toml differently (they tune the
+// mempool, tracing and start-up checks and must not reach consensus)
+type nodeOpts map[string]interface{}
+
+func (o nodeOpts) Get(k string) interface{} { return o[k] }
+
+func nodeNewAppOtherOperator(db dbm.DB) *app.Haqq {
+	return app.NewHaqq(log.NewNopLogger(), db, nil, true, map[int64]bool{}, app.DefaultNodeHome, 0,
+		encoding.MakeConfig(app.ModuleBasics), nodeOpts{"home": app.DefaultNodeHome, "evm.max-tx-gas-wanted": uint64(60_000),
+			"x-crisis-skip-assert-invariants": true, "minimum-gas-prices": "5aISLM", "iavl-cache-size": 10, "inter-block-cache": false},
 		baseapp.SetChainID(nodeChainID))
 }
 
@@ -588,6 +602,8 @@ func nodeGen(r *rand.Rand, tier string, prop string) []Case {
 		c = append(c, "blk # dt=6 txs=fundpup.0.1000000000000000|approve.1|approve.2|mdeleg.3.100000000000000000|mdeleg.1.100000000000000000|mdeleg.2.100000000000000000")
 		c = append(c, "blk # dt=6 txs=vest.4.5.9000000000000000000000|codeless.2|mdeleg2.1.300000000000000000|mdeleg2.3.200000000000000000")
 		var liqTo []int
+		// one C19 world in three has no liquid denomination left at export: the only one is redeemed in full
+		noLiq := prop == "C19" && i%3 == 0
 		swapAt := 2 + r.Intn(blocks-6)
 		// two worlds in three: the second validator is caught double-signing at some block (slashed, jailed, tombstoned;
 		// its delegations, unbonding entries and redelegations are slashed and the slashed coins redirected)
@@ -638,6 +654,11 @@ func nodeGen(r *rand.Rand, tier string, prop string) []Case {
 						// touch a module account, then have a precompile move coins into or out of it in the same transaction
 						m := pick(r, []string{"not_bonded_tokens_pool", "bonded_tokens_pool", "distribution"})
 						s = append(s, "Z:"+m, fmt.Sprintf("U:%d", 1000+r.Intn(50000)), fmt.Sprintf("G:%d", 1000+r.Intn(50000)))
+						if r.Intn(2) == 0 {
+							// … and then pay the same module account a little: its cached object, loaded before the precompile
+							// moved the bank balance, becomes dirty
+							s = append(s, fmt.Sprintf("z:%s:%d", m, 1+r.Intn(9)))
+						}
 					}
 					if r.Intn(3) == 0 {
 						s = append(s, "Z:"+pick(r, []string{"not_bonded_tokens_pool", "bonded_tokens_pool", "distribution", "fee_collector", "gov", "erc20", "coinomics"}))
@@ -661,6 +682,8 @@ func nodeGen(r *rand.Rand, tier string, prop string) []Case {
 					}
 				case x < 10:
 					txs = append(txs, fmt.Sprintf("mundeleg.3.%d", 1000+r.Intn(1_000_000)))
+				case x < 11 && noLiq:
+					txs = append(txs, fmt.Sprintf("dao.%d.%d", k, 1+r.Intn(1_000_000)))
 				case x < 11:
 					switch r.Intn(6) {
 					case 4, 5:
@@ -743,10 +766,19 @@ func nodeGen(r *rand.Rand, tier string, prop string) []Case {
 				}
 			}
 		}
+		if prop == "C15" && i%2 == 0 {
+			// (the worlds in which governance switched the ERC20 module off) ordinary sends to the module accounts whose
+			// balances are tied to records
+			c = append(c, "blk # dt=6 txs=sendm.1.bonded_tokens_pool.12345|sendm.2.distribution.777|sendm.3.not_bonded_tokens_pool.5|ethm.0.bonded_tokens_pool.9")
+		}
+		if prop == "C15" {
+			// a module account looked at, then changed by a precompile, then paid, all in one transaction
+			c = append(c, "blk # dt=6 txs=pup.1.20.Z:bonded_tokens_pool,G:70000,z:bonded_tokens_pool:1|pup.2.20.Z:not_bonded_tokens_pool,U:3000,z:not_bonded_tokens_pool:2|pup.1.20.Z:distribution,G:500,W,z:distribution:3")
+		}
 		if prop == "C19" || prop == "C15" {
 			// a DAO holder with two denominations: liquidate to key 1, fund the DAO with the liquid and the base denomination
 			nl := len(liqTo)
-			if nl < 4 {
+			if nl < 4 && !noLiq {
 				c = append(c, "blk # dt=6 txs=liq.5.1.1000000000000000000000")
 				c = append(c, fmt.Sprintf("blk # dt=6 txs=cvt.1.%d.9000000000000000000|daoliq.1.%d.5000000000000000000|cvtback.1.%d.1000000000000000000|daoxfer.1.2", nl, nl, nl))
 				nl++
@@ -791,6 +823,56 @@ type nodeRestart struct {
 	after int // number of blocks committed
 	db    dbm.DB
 	hash  string
+	rpc   []string // what the node that never stopped answered to the queries of nodeRPCDigest at this block boundary
+}
+
+// nodeRPCDigest asks the node, through the ABCI Query route the gRPC gateway and the JSON-RPC server use, what an
+// operator's tools ask between two blocks: eth_call of code that reads the chain id, the block number and a block
+// hash, eth_estimateGas of a transfer, the EVM and fee-market parameters, the base fee, a balance.  The block proposer
+// is named in the request, as the node's own JSON-RPC server does: between start-up and its first commit baseapp's
+// query context carries an empty block header (no proposer, zero time) — SDK behaviour outside Haqq's code, so
+// nothing here reads the header's proposer or time; the chain id is left to the node (request field 0).
+func nodeRPCDigest(w *nodeWorld, a *app.Haqq) []string {
+	var out []string
+	ask := func(name, path string, req interface{ Marshal() ([]byte, error) }) {
+		bz, err := req.Marshal()
+		if err != nil {
+			panic(err)
+		}
+		func() {
+			defer func() {
+				if r := recover(); r != nil {
+					out = append(out, fmt.Sprintf("%s: panic %v", name, r))
+				}
+			}()
+			res := a.Query(abci.RequestQuery{Path: path, Data: bz})
+			h := sha256.Sum256(res.Value)
+			out = append(out, fmt.Sprintf("%s: code=%d value=%x", name, res.Code, h[:8]))
+		}()
+	}
+	call := func(code string) []byte {
+		data := hexutil.Bytes(common.FromHex(code))
+		from := w.eth(0)
+		bz, err := json.Marshal(evmtypes.TransactionArgs{From: &from, Data: &data})
+		if err != nil {
+			panic(err)
+		}
+		return bz
+	}
+	// CHAINID / NUMBER / BLOCKHASH(NUMBER-1), each returned as one word
+	ask("eth_call chainid", "/ethermint.evm.v1.Query/EthCall", &evmtypes.EthCallRequest{Args: call("0x4660005260206000f3"), GasCap: 1_000_000, ProposerAddress: w.proposer})
+	ask("eth_call number", "/ethermint.evm.v1.Query/EthCall", &evmtypes.EthCallRequest{Args: call("0x4360005260206000f3"), GasCap: 1_000_000, ProposerAddress: w.proposer})
+	ask("eth_call blockhash", "/ethermint.evm.v1.Query/EthCall", &evmtypes.EthCallRequest{Args: call("0x600143034060005260206000f3"), GasCap: 1_000_000, ProposerAddress: w.proposer})
+	to := w.eth(1)
+	val := hexutil.Big(*big.NewInt(5))
+	from := w.eth(0)
+	est, _ := json.Marshal(evmtypes.TransactionArgs{From: &from, To: &to, Value: &val})
+	ask("eth_estimateGas", "/ethermint.evm.v1.Query/EstimateGas", &evmtypes.EthCallRequest{Args: est, GasCap: 1_000_000, ProposerAddress: w.proposer})
+	ask("evm params", "/ethermint.evm.v1.Query/Params", &evmtypes.QueryParamsRequest{})
+	ask("base fee", "/ethermint.evm.v1.Query/BaseFee", &evmtypes.QueryBaseFeeRequest{})
+	ask("evm balance", "/ethermint.evm.v1.Query/Balance", &evmtypes.QueryBalanceRequest{Address: w.eth(2).Hex()})
+	ask("bank balance", "/cosmos.bank.v1beta1.Query/Balance", &banktypes.QueryBalanceRequest{Address: w.acc(2).String(), Denom: utils.BaseDenom})
+	return out
 }
 
 // nodeExecHistory runs the case on node A; afterBlock (optional) is called after each committed block,
@@ -940,12 +1022,12 @@ func c01Exec(c Case) (outs []string, fails []Failure, tags []string) {
 	if run.w.seed%2 == 1 {
 		time.Local = time.FixedZone("replica", 14*3600)
 	}
-	b := nodeNewApp(dbm.NewMemDB())
+	b := nodeNewAppOtherOperator(dbm.NewMemDB())
 	run.w.initChain(b)
 	b.Commit()
 	got := run.w.replay(b, run.blocks)
 	time.Local = savedLocal
-	tags = append(tags, "replica-compared", "replica-in-other-time-zone")
+	tags = append(tags, "replica-compared", "replica-in-other-time-zone", "replica-with-other-app-toml")
 	if d := diffBlocks(run.results, got, 2); len(d) > 0 {
 		fails = append(fails, Failure{Signature: "C01:replicas-diverge", What: "two replicas fed the same blocks disagree:\n  " + strings.Join(d, "\n  "), Case: c})
 	}
@@ -955,7 +1037,7 @@ func c01Exec(c Case) (outs []string, fails []Failure, tags []string) {
 func c20Exec(c Case) (outs []string, fails []Failure, tags []string) {
 	mark := func(run *nodeRun, what string, i int) {
 		if what == "restart" {
-			run.restarts = append(run.restarts, nodeRestart{after: len(run.blocks), db: nodeCopyDB(run.dbA), hash: hex.EncodeToString(run.a.LastCommitID().Hash)})
+			run.restarts = append(run.restarts, nodeRestart{after: len(run.blocks), db: nodeCopyDB(run.dbA), hash: hex.EncodeToString(run.a.LastCommitID().Hash), rpc: nodeRPCDigest(run.w, run.a)})
 		}
 	}
 	run, outs, tags := nodeExecHistory(c, nil, mark)
@@ -974,6 +1056,13 @@ func c20Exec(c Case) (outs []string, fails []Failure, tags []string) {
 		if hex.EncodeToString(info.LastBlockAppHash) != rs.hash {
 			d = append(d, "start-up app hash differs from the hash the stopped node committed")
 		}
+		// queries answered between start-up and the first block
+		for j, got := range nodeRPCDigest(run.w, b) {
+			if j < len(rs.rpc) && got != rs.rpc[j] {
+				d = append(d, fmt.Sprintf("query answered differently: restarted node %q, node that never stopped %q", got, rs.rpc[j]))
+			}
+		}
+		tags = append(tags, "restart-queries-compared")
 		got := run.w.replay(b, run.blocks[rs.after:])
 		d = append(d, diffBlocks(run.results[rs.after:], got, int64(rs.after+2))...)
 		if len(d) > 0 {
